@@ -266,6 +266,34 @@ Definition accept (two_byte : bool) (s : ustate) (a : attr) : ustate :=
   else if ((code =? 17) || (code =? 18)) && negb two_byte then s
   else add_attr s a.
 
+(* The body of one iteration of the attribute walk, after the header has been read and
+   the value found to fit: [c] is the cursor at the value, [alen] its length. *)
+Definition attr_one (two_byte : bool) (s : ustate) (flags code : N) (c : list N) (alen : N) : res ustate :=
+  if seen s code then
+    if (code =? 14) || (code =? 15) then Fail MAL else Ok s
+  else
+    let s := mark_seen s code in
+    match canonical_flags code with
+    | Some expected =>
+      let flags_error := negb (N.land (N.lxor flags expected) 192 =? 0) in
+      let s := if flags_error then add_err s code flags else s in
+      (* a wrongly flagged MP_REACH_NLRI / MP_UNREACH_NLRI is still decoded *)
+      if flags_error && negb ((code =? 14) || (code =? 15)) then Ok s
+      else
+        match (if Nat.ltb (length c) (nat_of alen) then None          (* reads past the end: Err(()) *)
+               else attr_decode code flags (firstn (nat_of alen) c) two_byte) with
+        | Some a => Ok (accept two_byte s a)
+        | None => Ok (if (code =? 17) || (code =? 18) then s else add_err s code flags)
+        end
+    | None =>
+      if negb (has_flag flags FLAG_OPTIONAL) then Ok (add_err s code flags)
+      else if has_flag flags FLAG_TRANSITIVE then
+        if Nat.ltb (length c) (nat_of alen) then Fail MAL
+        else Ok (add_attr s {| a_code := code; a_flags := flags;
+                               a_data := AOpaque (firstn (nat_of alen) c) |})
+      else Ok s
+    end.
+
 (* while c.position() < attr_end { ... }.  [c] is the cursor, [arem] = attr_end -
    position.  Returns the state and a remainder that is non-zero exactly when the
    Rust has `truncated || c.position() != attr_end` after the loop (every `break`
@@ -289,38 +317,8 @@ Fixpoint attr_loop (fuel : nat) (two_byte : bool) (c : list N) (arem : N) (s : u
           '(l, c) <- must 13 (get8 c) ;; Ok (l, c, arem - 1, false)) ;;
     if brk then Ok (s, N.max arem 1) else                            (* truncated = true; break *)
     if arem <? alen then Ok (s, N.max arem 1) else                   (* truncated = true; break *)
-    let skip := skipn (nat_of alen) c in
-    let arem' := arem - alen in
-    if seen s code then
-      if (code =? 14) || (code =? 15) then Fail MAL
-      else attr_loop f two_byte skip arem' s
-    else
-      let s := mark_seen s code in
-      match canonical_flags code with
-      | Some expected =>
-        let flags_error := negb (N.land (N.lxor flags expected) 192 =? 0) in
-        let s := if flags_error then add_err s code flags else s in
-        (* a wrongly flagged MP_REACH_NLRI / MP_UNREACH_NLRI is still decoded *)
-        if flags_error && negb ((code =? 14) || (code =? 15)) then
-          attr_loop f two_byte skip arem' s
-        else
-          match (if Nat.ltb (length c) (nat_of alen) then None          (* reads past the end: Err(()) *)
-                 else attr_decode code flags (firstn (nat_of alen) c) two_byte) with
-          | Some a => attr_loop f two_byte skip arem' (accept two_byte s a)
-          | None =>
-            attr_loop f two_byte skip arem'
-                      (if (code =? 17) || (code =? 18) then s else add_err s code flags)
-          end
-      | None =>
-        if negb (has_flag flags FLAG_OPTIONAL) then
-          attr_loop f two_byte skip arem' (add_err s code flags)
-        else if has_flag flags FLAG_TRANSITIVE then
-          if Nat.ltb (length c) (nat_of alen) then Fail MAL
-          else attr_loop f two_byte skip arem'
-                         (add_attr s {| a_code := code; a_flags := flags;
-                                        a_data := AOpaque (firstn (nat_of alen) c) |})
-        else attr_loop f two_byte skip arem' s
-      end
+    s' <- attr_one two_byte s flags code c alen ;;
+    attr_loop f two_byte (skipn (nat_of alen) c) (arem - alen) s'
   end.
 
 (* ---- the length test of the unrepaired code:
@@ -359,63 +357,48 @@ Section Update.
 
   Definition is_nil {A} (l : list A) : bool := match l with [] => true | _ => false end.
 
-  (* [frame] is the whole message (header included), at least 19 bytes;
-     [hdr_err] the BadMessageLength built from bytes 16..17 *)
-  Definition parse_update (cd : codec) (hdr_err : notif) (frame : list N) : res pupdate :=
+  (* the three length-delimited parts: withdrawn-routes length and bytes, the cursor at the
+     first attribute (attributes, then NLRI), total path attribute length *)
+  Definition upd_locate (hdr_err : notif) (frame : list N) : res (N * list N * list N * N) :=
     let buflen := len frame in
     if buflen <? 23 then Fail hdr_err else
-    let body := skipn 19 frame in
-    '(wl, c) <- must 20 (get16 body) ;;
+    '(wl, c) <- must 20 (get16 (skipn 19 frame)) ;;
     if buflen <? wl + 23 then Fail MAL else
-    let withdrawn := firstn (nat_of wl) c in
-    let c := skipn (nat_of wl) c in
-    '(al, c) <- rm (get16 c) ;;
+    '(al, c2) <- rm (get16 (skipn (nat_of wl) c)) ;;
     if buflen <? wl + al + 23 then Fail MAL else
-    let reach_len := buflen - (23 + wl + al) in
-    '(s, arem) <- attr_loop (S (length c)) (c_two_byte cd) c al u0 ;;
-    if (reach_len =? 0) && (al =? 0) && (wl =? 0) then Ok (UEor F_IPV4) else
-    let s := post_errs reach_len arem s in
-    let nlri_bytes := skipn (nat_of al) c in
-    reach <- (if negb (reach_len =? 0) then
-                ap <- req MAL (fam_lookup (c_fams cd) F_IPV4) ;;
-                nlri_list other_nlri F_IPV4 ap true nlri_bytes
-              else Ok []) ;;
-    unreach <- (if 0 <? wl then
-                  ap <- req MAL (fam_lookup (c_fams cd) F_IPV4) ;;
-                  if Nat.ltb (length withdrawn) (nat_of wl) then Panic 21 else  (* &buf[start..start+wl] *)
-                  nlri_list other_nlri F_IPV4 ap false withdrawn
-                else Ok []) ;;
-    mp_reach <- match u_mp_reach s with
-                | None => Ok None
-                | Some d =>
-                  if len d <? 5 then Fail E_OPT_ATTR else
-                  '(afi, d1) <- must 22 (get16 d) ;;
-                  '(safi, d1) <- must 23 (get8 d1) ;;
-                  let fam := afi * 65536 + safi in
-                  ap <- req MAL (fam_lookup (c_fams cd) fam) ;;
-                  '(nhl, d1) <- must 24 (get8 d1) ;;
-                  if len d <? 5 + nhl then Fail E_OPT_ATTR else
-                  nh <- (if nhl =? 0 then if is_flowspec fam then Ok None else Fail E_OPT_ATTR
-                         else if (nhl =? 4) || (nhl =? 16) || (nhl =? 32) then
-                           Ok (nexthop_norm (firstn (nat_of nhl) d1))
-                         else if (nhl =? 12) || (nhl =? 24) then
-                           Ok (nexthop_norm (skipn 8 (firstn (nat_of nhl) d1)))
-                         else Fail E_OPT_ATTR) ;;
-                  '(_, d2) <- must 25 (get8 (skipn (nat_of nhl) d1)) ;;
-                  entries <- nlri_list other_nlri fam ap true d2 ;;
-                  Ok (Some (fam, entries, nh))
-                end ;;
-    mp_unreach <- match u_mp_unreach s with
-                  | None => Ok None
-                  | Some d =>
-                    if len d <? 3 then Fail E_OPT_ATTR else
-                    '(afi, d1) <- must 26 (get16 d) ;;
-                    '(safi, d1) <- must 27 (get8 d1) ;;
-                    let fam := afi * 65536 + safi in
-                    ap <- req MAL (fam_lookup (c_fams cd) fam) ;;
-                    entries <- nlri_list other_nlri fam ap false d1 ;;
-                    Ok (Some (fam, entries))
-                  end ;;
+    Ok (wl, firstn (nat_of wl) c, c2, al).
+
+  Definition upd_mp_reach (cd : codec) (d : list N) : res (N * list (N * nlri) * option (list N)) :=
+    if len d <? 5 then Fail E_OPT_ATTR else
+    '(afi, d1) <- must 22 (get16 d) ;;
+    '(safi, d1) <- must 23 (get8 d1) ;;
+    let fam := afi * 65536 + safi in
+    ap <- req MAL (fam_lookup (c_fams cd) fam) ;;
+    '(nhl, d1) <- must 24 (get8 d1) ;;
+    if len d <? 5 + nhl then Fail E_OPT_ATTR else
+    nh <- (if nhl =? 0 then if is_flowspec fam then Ok None else Fail E_OPT_ATTR
+           else if (nhl =? 4) || (nhl =? 16) || (nhl =? 32) then
+             Ok (nexthop_norm (firstn (nat_of nhl) d1))
+           else if (nhl =? 12) || (nhl =? 24) then
+             Ok (nexthop_norm (skipn 8 (firstn (nat_of nhl) d1)))
+           else Fail E_OPT_ATTR) ;;
+    '(_, d2) <- must 25 (get8 (skipn (nat_of nhl) d1)) ;;
+    entries <- nlri_list other_nlri fam ap true d2 ;;
+    Ok (fam, entries, nh).
+
+  Definition upd_mp_unreach (cd : codec) (d : list N) : res (N * list (N * nlri)) :=
+    if len d <? 3 then Fail E_OPT_ATTR else
+    '(afi, d1) <- must 26 (get16 d) ;;
+    '(safi, d1) <- must 27 (get8 d1) ;;
+    let fam := afi * 65536 + safi in
+    ap <- req MAL (fam_lookup (c_fams cd) fam) ;;
+    entries <- nlri_list other_nlri fam ap false d1 ;;
+    Ok (fam, entries).
+
+  (* end-of-RIB test for MP families, AS4 reconciliation, and the ParsedUpdate::Routes value *)
+  Definition upd_finish (cd : codec) (s : ustate) (reach unreach : list (N * nlri))
+             (mp_reach : option (N * list (N * nlri) * option (list N)))
+             (mp_unreach : option (N * list (N * nlri))) : res pupdate :=
     let mp_reach_empty := match mp_reach with None => true | Some (_, e, _) => is_nil e end in
     match mp_unreach with
     | Some (fam, []) =>
@@ -433,6 +416,33 @@ Section Update.
                   (if is_nil unreach then None else Some (F_IPV4, unreach))
                   mp_unreach attrs (u_errs s))
     end.
+
+  (* [frame] is the whole message (header included), at least 19 bytes;
+     [hdr_err] the BadMessageLength built from bytes 16..17 *)
+  Definition parse_update (cd : codec) (hdr_err : notif) (frame : list N) : res pupdate :=
+    '(wl, withdrawn, c, al) <- upd_locate hdr_err frame ;;
+    let reach_len := len frame - (23 + wl + al) in
+    '(s, arem) <- attr_loop (S (length c)) (c_two_byte cd) c al u0 ;;
+    if (reach_len =? 0) && (al =? 0) && (wl =? 0) then Ok (UEor F_IPV4) else
+    let s := post_errs reach_len arem s in
+    reach <- (if negb (reach_len =? 0) then
+                ap <- req MAL (fam_lookup (c_fams cd) F_IPV4) ;;
+                nlri_list other_nlri F_IPV4 ap true (skipn (nat_of al) c)
+              else Ok []) ;;
+    unreach <- (if 0 <? wl then
+                  ap <- req MAL (fam_lookup (c_fams cd) F_IPV4) ;;
+                  if Nat.ltb (length withdrawn) (nat_of wl) then Panic 21 else  (* &buf[start..start+wl] *)
+                  nlri_list other_nlri F_IPV4 ap false withdrawn
+                else Ok []) ;;
+    mp_reach <- match u_mp_reach s with
+                | None => Ok None
+                | Some d => x <- upd_mp_reach cd d ;; Ok (Some x)
+                end ;;
+    mp_unreach <- match u_mp_unreach s with
+                  | None => Ok None
+                  | Some d => x <- upd_mp_unreach cd d ;; Ok (Some x)
+                  end ;;
+    upd_finish cd s reach unreach mp_reach mp_unreach.
 End Update.
 
 (* ------------------------------------------------------------ observation *)
